@@ -99,6 +99,22 @@ fn programs(n: usize) -> Vec<(&'static str, String, f64)> {
             format!("let keep = 7; let o = {{ m(a, b) {{ return a + b; }} }}; let s = 0; {} keep * 1000000 + s",
                     (0..n).map(|i| format!("s += o.m({}, 1);", i)).collect::<String>()),
             7.0 * 1e6 + sum + nn));
+    v.push(("array_literal_sequence",
+            format!("let keep = 7; let s = 0; {} keep * 1000000 + s",
+                    (0..n).map(|i| format!("s += [{}, 1, 2].length;", i)).collect::<String>()),
+            7.0 * 1e6 + 3.0 * nn));
+    v.push(("template_literal_sequence",
+            format!("let keep = 7; let s = 0; let x = 5; {} keep * 1000000 + s",
+                    (0..n).map(|_| "s += `a${x}b${x}`.length;".to_string()).collect::<String>()),
+            7.0 * 1e6 + 4.0 * nn));
+    v.push(("new_expression_sequence",
+            format!("let keep = 7; class P {{ v: number; constructor(a, b) {{ this.v = a + b; }} }} let s = 0; {} keep * 1000000 + s",
+                    (0..n).map(|i| format!("s += new P({}, 1).v;", i)).collect::<String>()),
+            7.0 * 1e6 + sum + nn));
+    v.push(("object_literal_sequence",
+            format!("let keep = 7; let s = 0; {} keep * 1000000 + s",
+                    (0..n).map(|i| format!("s += {{a: {}, b: 1}}.a;", i)).collect::<String>()),
+            7.0 * 1e6 + sum));
     v.push(("computed_assignment_sequence",
             format!("let keep = 7; let o = {{}}; let k = 'p'; {} let s = 0; for (let x in o) {{ s += o[x]; }} keep * 1000000 + s + Object.keys(o).length",
                     (0..n).map(|i| format!("o[k + {}] = {};", i, i)).collect::<String>()),
@@ -143,8 +159,9 @@ fn verif_side_c10() {
             let got = run(&src);
             let ok = match &got {
                 Outcome::Num(v) => *v == want,
-                // an explicit refusal before running is allowed by the property
-                Outcome::Err(e) => e.contains("Too many") || e.contains("too many") || e.contains("limit"),
+                // an explicit refusal before running is allowed by the property for ONE oversized construct, but
+                // "limits are per construct, never cumulative": a sequence of individually small statements must run
+                Outcome::Err(e) => !family.ends_with("_sequence") && (e.contains("Too many") || e.contains("too many") || e.contains("limit")),
                 _ => false,
             };
             if !ok && fails < 16 {
